@@ -12,6 +12,7 @@ CONSTANTS
   FixNonRequest = FALSE
   FixLongWs = TRUE
   FarChoices = {FALSE}
+  FixNullRequired = FALSE
   HasValidator = TRUE
   NilPointerSkipsValidation = TRUE
 INIT TableInit
